@@ -8,37 +8,41 @@ export GOFLAGS=-mod=mod GOPROXY=off GOSUMDB=off GOTOOLCHAIN=local CGO_ENABLED=${
 export VERIF_DIR="$(pwd)"
 REPO="${VERIF_REPO:-/repo}"
 MODFILE=go.mod
+BINDIR=bin
 if [ "$REPO" != "/repo" ]; then
-  # sensitivity runs: point the replace directive at a scratch copy
-  MODFILE="$(mktemp -d)/go.mod"
+  # sensitivity runs: point the replace directive at a scratch copy and build
+  # into a private directory, so that concurrent runs never share binaries
+  BINDIR="$(mktemp -d)"
+  MODFILE="$BINDIR/go.mod"
   sed "s#=> /repo#=> $REPO#" go.mod > "$MODFILE"
-  cp go.sum "$(dirname "$MODFILE")/go.sum"
+  cp go.sum "$BINDIR/go.sum"
+  trap 'rm -rf "$BINDIR"' EXIT
 fi
 build() {
-  mkdir -p bin
-  if ! go build -modfile="$MODFILE" -tags verif -o bin/check ./cmd/check 2> bin/build.log; then
-    echo "BUILD FAILED (harness trouble, not a verdict):" >&2; cat bin/build.log >&2; exit 2
+  mkdir -p "$BINDIR"
+  if ! go build -modfile="$MODFILE" -tags verif -o "$BINDIR/check" ./cmd/check 2> "$BINDIR/build.log"; then
+    echo "BUILD FAILED (harness trouble, not a verdict):" >&2; cat "$BINDIR/build.log" >&2; exit 2
   fi
 }
 build_race() {
-  if ! go build -modfile="$MODFILE" -race -tags verif -o bin/check-race ./cmd/check 2> bin/build-race.log; then
-    echo "RACE BUILD FAILED (harness trouble, not a verdict):" >&2; cat bin/build-race.log >&2; exit 2
+  if ! go build -modfile="$MODFILE" -race -tags verif -o "$BINDIR/check-race" ./cmd/check 2> "$BINDIR/build-race.log"; then
+    echo "RACE BUILD FAILED (harness trouble, not a verdict):" >&2; cat "$BINDIR/build-race.log" >&2; exit 2
   fi
 }
 case "${1:-}" in
   setup) build; build_race; exit 0;;
   selftest) build; build_race; shift
     ids="${*:-C04 C05 C06 C10 C12 C13 C16 C20}"
-    bin/check selftest $ids || exit 2
-    bin/check-race selftest C17 || exit 2
+    "$BINDIR/check" selftest $ids || exit 2
+    "$BINDIR/check-race" selftest C17 || exit 2
     exit 0;;
 esac
 ID="${1:?property id}"; MODE="${2:?quick|thorough|replay}"
-BIN=bin/check
+BIN="$BINDIR/check"
 build
-if [ "$ID" = "C17" ]; then build_race; BIN=bin/check-race; fi
+if [ "$ID" = "C17" ]; then build_race; BIN="$BINDIR/check-race"; fi
 case "$MODE" in
-  quick|thorough) exec "$BIN" run "$ID" "$MODE";;
-  replay) exec "$BIN" replay "$ID" "${3:?replay file}";;
+  quick|thorough) "$BIN" run "$ID" "$MODE"; exit $?;;
+  replay) "$BIN" replay "$ID" "${3:?replay file}"; exit $?;;
   *) echo "usage: run.sh <ID> quick|thorough|replay <file>" >&2; exit 2;;
 esac
